@@ -125,7 +125,7 @@ def run_case(j, e):
     opt = R.get("opt", "")
     cid = (op, lc, rc, m, n, opt)
     feat = "%s%s;len(%d,%d)" % (rc, ("[" + opt + "]") if opt else "", m, n)
-    site = "%s.%s" % (lc, op)
+    site = "%s.%s" % (lc, "__or__" if op == "|" else op)
     if doc["k"] in ("unspec",):
         j.skip("not specified (empty operand, undocumented cell or method not named by C09)")
         if op not in OPS and m >= 1:       # extra per-value methods: explored and reported
